@@ -1,6 +1,124 @@
-import HranoModel.Model.Options
-import HranoModel.Model.Sink
-import HranoModel.Model.Chan
-/-! C15 property theorems (statements only in this file; helper lemmas live in Lemmas/) -/
+import HranoModel.Lemmas.Present
+/-!
+C15 — presentation options never change the numbers.
+
+Property theorems only (helper lemmas: `Lemmas/Present.lean`).  Proved: colour by sign and colour-stripping
+at the level of every printed figure; default register = no-totals and totals-only interleaved; the three
+templates and the old reporter draw their figures from the same report item / accumulator; the shape of a
+shortened name; `--desc` is a permutation ordered the other way; flag position of `--no-color`.
+Not proved (stated in DESIGN.md; checked by the correspondence and by relations between the program's own
+outputs): colour-stripping of a *whole* report when names themselves contain ESC bytes is false by
+construction, so the whole-report statement needs the hypothesis that names hold no ESC and is left to the check.
+-/
 namespace Hrano.C15
+open Hrano Hrano.Report
+
+/-- positive amounts red, negative green, zero uncoloured -/
+theorem colour_by_sign (v : Q) :
+    (v > 0 → fmtVal true v = red ++ Num.fmtFixedW 10 2 v ++ reset)
+    ∧ (v < 0 → fmtVal true v = green ++ Num.fmtFixedW 10 2 v ++ reset)
+    ∧ (v = 0 → fmtVal true v = Num.fmtFixedW 10 2 v)
+    ∧ fmtVal false v = Num.fmtFixedW 10 2 v := by
+  refine ⟨?_, ?_, ?_, ?_⟩
+  · intro h; simp [fmtVal, h]
+  · intro h
+    have : ¬ v > 0 := by grind
+    simp [fmtVal, h, this]
+  · intro h; subst h; simp [fmtVal, Rat.lt_irrefl]
+  · simp [fmtVal]
+
+/-- coloured output equals plain output once escape codes are removed — for every printed figure, wherever it
+    stands in a line -/
+theorem strip_colour_figure (v : Q) (rest : Bytes) :
+    stripAnsi (fmtVal true v ++ rest) = fmtVal false v ++ stripAnsi rest :=
+  strip_fmtVal v rest
+
+/-- text without ESC bytes is untouched by the stripping -/
+theorem strip_plain (a rest : Bytes) (h : noEsc a) : stripAnsi (a ++ rest) = a ++ stripAnsi rest :=
+  strip_noEsc_append a rest h
+
+/-- **default register = no-totals and totals-only interleaved per day**: the three outputs share the date line
+    `D`, the food block `E` and the totals block `T`:  `D E T ⏎`,  `D E ⏎`,  `D T ⏎` -/
+theorem default_is_interleave (cfg : RCfg) (d : LogDay) (db : Book) :
+    ∃ D E T : Bytes,
+      renderDefault { cfg with totals := true, totalsOnly := false } d db = D ++ E ++ T ++ [10]
+      ∧ renderDefault { cfg with totals := false, totalsOnly := false } d db = D ++ E ++ [10]
+      ∧ renderDefault { cfg with totals := true, totalsOnly := true } d db = D ++ T ++ [10] := by
+  let re := d.elements.map (fun e => (⟨e.name, e.value, contributions db e⟩ : ReportElement))
+  let acc := d.elements.foldl (fun a e => accumulate a (contributions db e)) []
+  refine ⟨Date.format cfg.dateLayout d.date,
+    (re.map (fun el =>
+        [10, 9] ++ Bytes.padRight 32 27 (shorten cfg.shorten el.name 27) ++ [32, 58] ++ fmtVal cfg.color el.value
+        ++ (el.ingredients.map (fun ing =>
+              [10, 9, 9] ++ Bytes.padLeft 32 20 (shorten cfg.shorten ing.name 20) ++ [32] ++ fmtVal cfg.color ing.value)).flatten)).flatten,
+    [10, 9] ++ Bytes.ofString "-- TOTAL  " ++ dashes 52
+        ++ ((totalsOf acc).map (fun t =>
+              [10, 9, 9] ++ Bytes.padLeft 32 20 (shorten cfg.shorten t.name 20) ++ [32] ++ fmtVal cfg.color t.pos ++ [32]
+              ++ fmtVal cfg.color t.neg ++ [32, 61] ++ fmtVal cfg.color t.sum)).flatten, ?_, ?_, ?_⟩
+  · simp only [renderDefault, reportItem, Bool.false_eq_true, if_false, if_true, re, acc, List.append_assoc]
+  · simp only [renderDefault, reportItem, Bool.false_eq_true, if_false, List.append_nil, re, List.append_assoc]
+  · simp only [renderDefault, reportItem, if_true, List.map_nil, List.flatten_nil, List.append_nil, acc, List.append_assoc]
+
+/-- the old reporter accumulates the same contributions as the templates' report item: same totals, same figures
+    (the default and the left-aligned template both render `reportItem`; the old reporter re-implements the sums) -/
+theorem old_reporter_same_totals (cfg : RCfg) (d : LogDay) (db : Book) (h : cfg.totals = true) :
+    (reportItem db cfg d).2 = some (totalsOf (d.elements.foldl (fun a e => accumulate a (contributions db e)) []))
+    ∧ (d.elements.foldl (fun a e => accumulate a (contributions db e)) [] : Accumulator)
+        = accumulate [] (Spec.dayContributions db d.elements) :=
+  ⟨by simp [reportItem, h], foldl_accumulate_flatten (contributions db) d.elements []⟩
+
+/-- a name that fits its column is not changed by `--shorten` -/
+theorem shorten_fits (t : Bytes) (max : Nat) (h : Bytes.runeCount t ≤ max) : shorten true t max = t := by
+  simp [shorten, truncateMiddle, Bytes.runeCount] at h ⊢
+  intro h2; omega
+
+/-- **a shortened name keeps a prefix and a suffix of the original within the column width**: for `max ≥ 3` and a
+    longer name, the result is the first `δ` runes, the ellipsis, and the last `max − 1 − δ` runes (each invalid
+    byte shown as U+FFFD), `max` runes in all, with `δ = ⌈(max−1)/2⌉` for an even and `⌊(max−1)/2⌋` for an odd
+    number of runes -/
+theorem shorten_keeps_ends (t : Bytes) (max : Nat) (h3 : 3 ≤ max) (hlong : max < (Bytes.runes t).length) :
+    ∃ pre mid suf δ, Bytes.runes t = pre ++ mid ++ suf
+      ∧ δ = (if (Bytes.runes t).length % 2 == 0 then max / 2 else (max - 1) / 2)
+      ∧ pre.length = δ ∧ suf.length = max - 1 - δ ∧ pre.length + 1 + suf.length = max
+      ∧ shorten true t max = (pre.map reencode).flatten ++ [0xE2, 0x80, 0xA6] ++ (suf.map reencode).flatten := by
+  let rs := Bytes.runes t
+  let n := rs.length
+  let δ := if n % 2 == 0 then (max - 1 + 1) / 2 else (max - 1) / 2
+  have hn : max < n := hlong
+  have hδ : δ ≤ max - 1 := by
+    show (if n % 2 == 0 then (max - 1 + 1) / 2 else (max - 1) / 2) ≤ max - 1
+    split <;> omega
+  refine ⟨rs.take δ, (rs.drop δ).take (n - max + 1), rs.drop (n - max + 1 + δ), δ, ?_, ?_, ?_, ?_, ?_, ?_⟩
+  · show rs = _
+    have h1 : rs.drop (n - max + 1 + δ) = (rs.drop δ).drop (n - max + 1) := by rw [List.drop_drop]; congr 1; omega
+    rw [h1, List.append_assoc, List.take_append_drop, List.take_append_drop]
+  · show δ = _
+    show (if n % 2 == 0 then (max - 1 + 1) / 2 else (max - 1) / 2) = _
+    have : max - 1 + 1 = max := by omega
+    rw [this]
+  · simp only [List.length_take]; show min δ n = δ; omega
+  · simp only [List.length_drop]; show n - (n - max + 1 + δ) = max - 1 - δ; omega
+  · simp only [List.length_take, List.length_drop]
+    show min δ n + 1 + (n - (n - max + 1 + δ)) = max; omega
+  · have hnot : ¬ max ≥ n := by show ¬ max ≥ rs.length; omega
+    have hnot3 : ¬ max < 3 := by omega
+    have hnot' : ¬ max ≥ (Bytes.runes t).length := hnot
+    simp only [shorten, if_true, truncateMiddle, hnot3, if_false]
+    rw [if_neg hnot']
+
+/-- `--desc` shows the same rows, ordered the other way: both orders are permutations of the same list -/
+theorem desc_same_rows (es : Elements) : (stableByValue true es).Perm (stableByValue false es) :=
+  (stableByValue_perm true es).trans (stableByValue_perm false es).symm
+
+/-- a presentation flag has the same effect on the sub-command as globally (`--no-color`) -/
+theorem no_color_position_irrelevant (s : Settings) (l : Layout) :
+    (Options.rcOf { s with gNoColor := true, sNoColor := false } l).color = false
+    ∧ (Options.rcOf { s with gNoColor := false, sNoColor := true } l).color = false
+    ∧ Options.rcOf { s with gNoColor := true, sNoColor := false } l = Options.rcOf { s with gNoColor := false, sNoColor := true } l := by
+  simp [Options.rcOf]
+
+/-! non-vacuity -/
+example : stripAnsi (fmtVal true 5 ++ [32] ++ fmtVal true (-5) ++ [32] ++ fmtVal true 0) = fmtVal false 5 ++ [32] ++ fmtVal false (-5) ++ [32] ++ fmtVal false 0 := by decide +kernel
+example : shorten true [48, 49, 50, 51, 52, 53, 54, 55, 56, 57] 7 = [48, 49, 50, 0xE2, 0x80, 0xA6, 55, 56, 57] := by decide
+
 end Hrano.C15
